@@ -347,15 +347,7 @@ class Analysis:
                 prop = ('C13', 'C13.order') if op in ('rate_limit', 'delay') else ('C02', 'C02.fifo')
                 V += self._prefix_check(nid, exp, prop, op)
             elif op == 'map_async':
-                failed = deque(a.value for a in self.acts if a.node == nid and a.ok is False)
-                fl = list(failed)
-                exp = []
-                for i in self.ins[nid]:
-                    if i.value in fl:
-                        fl.remove(i.value)
-                        continue
-                    exp.append((freeze(fns.f1(tuple(n['fn']), thaw(i.value))), i.md, i))
-                V += self._prefix_check(nid, exp, ('C02', 'C02.async_order'), op)
+                V += self._check_map_async(nid, n)
             elif op == 'timed_window':
                 V += self._check_timed_window(nid, n)
             elif op == 'timed_window_unique':
@@ -364,6 +356,50 @@ class Analysis:
                 V += self._check_partition_timeout(nid, n)
             elif op == 'latest':
                 V += self._check_latest(nid, n)
+        return V
+
+    def _check_map_async(self, nid, n):
+        """every arrival whose job did not fail is emitted exactly once; emissions keep
+        the order in which each producer emitted (elements of different producers that
+        nobody ordered may overtake each other while they wait for a work slot)"""
+        V = []
+        fl = [a.value for a in self.acts if a.node == nid and a.ok is False]
+        exp = []
+        for i in self.ins[nid]:
+            if i.value in fl:
+                fl.remove(i.value)
+                continue
+            exp.append((freeze(fns.f1(tuple(n['fn']), thaw(i.value))), i.md, i))
+        unmatched = list(range(len(exp)))
+        last_by_pid = {}
+        for k, o in enumerate(self.outs[nid]):
+            j = None
+            for idx in unmatched:
+                if exp[idx][0] == o.value and exp[idx][2].seq < o.seq:
+                    j = idx
+                    break
+            if j is None:
+                V.append(Violation('C02', 'C02.exactly_once', o.seq,
+                                   'map_async %d emitted %r which no pending arrival accounts for (duplicate or invented)' % (nid, o.value)))
+                return V
+            unmatched.remove(j)
+            if tuple(o.md) != tuple(exp[j][1]):
+                V.append(Violation('C10', 'C10.content', o.seq,
+                                   'map_async %d emission #%d metadata %r, expected %r' % (nid, k, o.md, exp[j][1])))
+                return V
+            pids = set((t - fns.TOKEN_BASE) // 1000 for t in fns.tokens(o.value))
+            for pid in pids:
+                if last_by_pid.get(pid, -1) > j:
+                    V.append(Violation('C02', 'C02.async_order', o.seq,
+                                       'map_async %d emitted %r (arrival #%d) after arrival #%d of the same producer %d'
+                                       % (nid, o.value, j, last_by_pid[pid], pid)))
+                    return V
+                last_by_pid[pid] = j
+        if self.drained:
+            missing = [exp[j] for j in unmatched if fns.tokens(exp[j][0]) or exp[j][1]]
+            if missing:
+                V.append(Violation('C02', 'C02.exactly_once', self.end_seq - 1,
+                                   'map_async %d: %d arrivals were never emitted, first %r' % (nid, len(missing), missing[0][0])))
         return V
 
     def _key(self, n, x, default_identity=True):
@@ -890,7 +926,7 @@ class Analysis:
                     if cnt < 0:
                         V.append(Violation('C05', 'C05.negative', seq, 'reference count of element %d became %d' % (elem, cnt)))
                         c05_done = True
-                    elif what == 'retain' and prev <= 0 and elem in hit_zero:
+                    elif what == 'retain' and n_ > 0 and prev <= 0 and elem in hit_zero:
                         V.append(Violation('C05', 'C05.rise_after_zero', seq,
                                            'reference count of element %d rose to %d after it had returned to zero' % (elem, cnt)))
                         c05_done = True
